@@ -456,6 +456,11 @@ Definition seen_get (s : seen) (i : N) : option bool :=
 Definition seen_set (s : seen) (i : N) : option seen :=
   if s_len s <=? i then None else Some (mkSeen (s_len s) (PositiveSet.add (N.succ_pos i) (s_set s))).
 
+(* the output side of a gate (commit 407ba55): `if int(Output) < inputWires { "gate overwrites
+   input wire" }` and then wiresSeen.Set(Output) with its range error; both are errors *)
+Definition seen_set_chk (iw : Z) (s : seen) (o : N) : option seen :=
+  if (Z.of_N o <? iw)%Z then None else seen_set s o.
+
 Fixpoint nrange (start : N) (n : nat) : list N :=
   match n with O => [] | S k => start :: nrange (start + 1) k end.
 
@@ -486,7 +491,7 @@ Definition check_in (s : seen) (i : N) : res unit :=
    `if gate >= len(gates) { return "too many gates" }` right after ReadByte), which
    makes the panic at the gates[gate] write unreachable.  fx9 = false: the code
    before that commit (regression record of finding F9). *)
-Fixpoint mpclc_gates (fx9 : bool) (fuel : nat) (numGates : N) (r : rd) (s : seen) (gate : N)
+Fixpoint mpclc_gates (fx9 : bool) (iw : Z) (fuel : nat) (numGates : N) (r : rd) (s : seen) (gate : N)
          (acc : list gateN) : res (list gateN * seen * N) :=
   match fuel with
   | O => Fuel
@@ -503,11 +508,11 @@ Fixpoint mpclc_gates (fx9 : bool) (fuel : nat) (numGates : N) (r : rd) (s : seen
               let i0 := of_be32 (firstn 4 l) in
               let o := of_be32 (skipn 4 l) in
               do _ <- check_in s i0;
-              match seen_set s o with
+              match seen_set_chk iw s o with
               | None => Err
               | Some s' =>
                   if numGates <=? gate then Panic          (* gates[gate]: index out of range *)
-                  else mpclc_gates fx9 f numGates r2 s' (gate + 1) (mkG INV i0 0 o :: acc)
+                  else mpclc_gates fx9 iw f numGates r2 s' (gate + 1) (mkG INV i0 0 o :: acc)
               end
           | Some o2 =>
               do (l, r2) <- read_full 12 r1;
@@ -516,11 +521,11 @@ Fixpoint mpclc_gates (fx9 : bool) (fuel : nat) (numGates : N) (r : rd) (s : seen
               let o := of_be32 (skipn 8 l) in
               do _ <- check_in s i0;
               do _ <- check_in s i1;
-              match seen_set s o with
+              match seen_set_chk iw s o with
               | None => Err
               | Some s' =>
                   if numGates <=? gate then Panic          (* gates[gate]: index out of range *)
-                  else mpclc_gates fx9 f numGates r2 s' (gate + 1) (mkG o2 i0 i1 o :: acc)
+                  else mpclc_gates fx9 iw f numGates r2 s' (gate + 1) (mkG o2 i0 i1 o :: acc)
               end
           end
       end
@@ -538,7 +543,7 @@ Definition parse_mpclc (fx9 fx10 : bool) (bs : list byte) : res fcircuit :=
   match mark_inputs (mkSeen numWires PositiveSet.empty) (io_size ins) with
   | None => Err
   | Some s0 =>
-      do (gs, s, gate) <- mpclc_gates fx9 fuel numGates r3 s0 0 [];
+      do (gs, s, gate) <- mpclc_gates fx9 (io_size ins) fuel numGates r3 s0 0 [];
       if negb (gate =? numGates) then Err
       else if negb (all_seen s) then Err
       else Ok (mkFC (Z.of_N numGates) (Z.of_N numWires) ins outs gs)
@@ -664,7 +669,7 @@ Fixpoint bristol_ins (line : list (list byte)) (base : nat) (n : nat) (s : seen)
           end
       end
   end.
-Fixpoint bristol_outs (line : list (list byte)) (base : nat) (n : nat) (s : seen) : res (list N * seen) :=
+Fixpoint bristol_outs (iw : Z) (line : list (list byte)) (base : nat) (n : nat) (s : seen) : res (list N * seen) :=
   match n with
   | O => Ok ([], s)
   | S k =>
@@ -674,15 +679,15 @@ Fixpoint bristol_outs (line : list (list byte)) (base : nat) (n : nat) (s : seen
           match parse_uint32 f with
           | None => Err
           | Some v =>
-              match seen_set s v with
+              match seen_set_chk iw s v with
               | None => Err
-              | Some s' => do (l, s'') <- bristol_outs line (S base) k s'; Ok (v :: l, s'')
+              | Some s' => do (l, s'') <- bristol_outs iw line (S base) k s'; Ok (v :: l, s'')
               end
           end
       end
   end.
 
-Definition bristol_gate_line (line : list (list byte)) (s : seen) : res (gateN * seen) :=
+Definition bristol_gate_line (iw : Z) (line : list (list byte)) (s : seen) : res (gateN * seen) :=
   if (length line <? 3)%nat then Err else
   match nth_error line 0, nth_error line 1 with
   | Some f0, Some f1 =>
@@ -692,7 +697,7 @@ Definition bristol_gate_line (line : list (list byte)) (s : seen) : res (gateN *
           else if negb (2 + n1 + n2 + 1 =? Z.of_nat (length line))%Z then Err
           else
             do ins <- bristol_ins line 2 (Z.to_nat n1) s;
-            do (outs, s') <- bristol_outs line (2 + Z.to_nat n1) (Z.to_nat n2) s;
+            do (outs, s') <- bristol_outs iw line (2 + Z.to_nat n1) (Z.to_nat n2) s;
             match op_of_name (last line []) with
             | None => Err
             | Some o =>
@@ -710,15 +715,15 @@ Definition bristol_gate_line (line : list (list byte)) (s : seen) : res (gateN *
   | _, _ => Panic
   end.
 
-Fixpoint bristol_gates (numGates : Z) (lines : list (list (list byte))) (s : seen) (gate : Z)
+Fixpoint bristol_gates (iw : Z) (numGates : Z) (lines : list (list (list byte))) (s : seen) (gate : Z)
   : res (list gateN * seen * Z) :=
   match lines with
   | [] => Ok ([], s, gate)
   | line :: rest =>
       if (numGates <=? gate)%Z then Err          (* too many gates *)
       else
-        do (g, s') <- bristol_gate_line line s;
-        do (gs, s'', n) <- bristol_gates numGates rest s' (gate + 1)%Z;
+        do (g, s') <- bristol_gate_line iw line s;
+        do (gs, s'', n) <- bristol_gates iw numGates rest s' (gate + 1)%Z;
         Ok (g :: gs, s'', n)
   end.
 
@@ -763,7 +768,7 @@ Definition ParseBristol (bs : list byte) : res fcircuit :=
                                           | Some nov =>
                                               if negb (1 + nov =? Z.of_nat (length l3))%Z then Err else
                                               do outs <- bristol_io [78; 79] 1 ht;  (* "NO%d" *)
-                                              do (gs, s, gate) <- bristol_gates numGates rest3 s0 0%Z;
+                                              do (gs, s, gate) <- bristol_gates (io_size ins) numGates rest3 s0 0%Z;
                                               if negb (gate =? numGates)%Z then Err
                                               else if negb (all_seen s) then Err
                                               else Ok (mkFC numGates numWires ins outs gs)
